@@ -42,13 +42,13 @@ PLAN = {
         deferred=True),
     "C05": dict(
         mc=[("MC_Conc.cfg", {"MaxMsgs": 5, "MaxActs": 3})],
-        sim=[("MC_Conc.cfg", [1], 1, {"NCtx": 4, "MaxActs": 5, "MaxMsgs": 10, "MaxBlocks": 3, "MaxDepth": 3, "Feat": '{"spawn", "ctx", "run", "finish"}'})],
-        profiles=[dict(feat={"spawn", "ctx", "run", "finish", "task"}, nctx=4, ndest=1, init=[1], maxlen=50, weights={"Spawn": 4.0}),
+        sim=[("MC_Conc.cfg", [1], 1, {"NCtx": 4, "MaxActs": 5, "MaxMsgs": 10, "MaxBlocks": 3, "MaxDepth": 3, "Feat": '{"spawn", "ctx", "run", "finish", "elsewhere"}'})],
+        profiles=[dict(feat={"spawn", "ctx", "run", "finish", "task", "elsewhere"}, nctx=4, ndest=1, init=[1], maxlen=50, weights={"Spawn": 4.0}),
                   # REAL asyncio tasks in one event loop, interleaved at await points (no run(): it needs a synchronous body)
                   dict(feat={"spawn", "ctx", "finish", "task", "alog"}, nctx=4, ndest=1, init=[1], maxlen=45, spawn_kinds=["task"],
                        executor="async_exec.py", collide=0.0, weights={"Spawn": 5.0, "EnterCtx": 2.0}),
                   # the same actions entered (context() / run()) from several contexts at overlapping times, left in any order
-                  dict(feat={"spawn", "ctx", "run"}, nctx=4, ndest=1, init=[1], maxlen=45, w_fin_ctx=0.6,
+                  dict(feat={"spawn", "ctx", "run", "elsewhere"}, nctx=4, ndest=1, init=[1], maxlen=45, w_fin_ctx=0.6,
                        weights={"Spawn": 5.0, "EnterCtx": 3.0, "EnterRun": 3.0, "StartAction": 0.7, "EnterWith": 0.6, "Exit": 2.0, "Log": 1.0})]),
     "C06": dict(
         mc=[("MC_Remote.cfg", {"MaxMsgs": 5})],
